@@ -94,6 +94,19 @@ CHECKS['C15'] = {
     'technique': 'typestate/invariant audit of all writers + affine access-map (stride) analysis + index-signature matching + symbolic polynomial algebra on literals',
 }
 
+CHECKS['C05'] = {
+    'category': 'other',
+    'text': 'Symbolic proof for every shape: matmul and matmul_blocked, specialised to each of the four transpose-flag combinations, evaluate in '
+            'an orientation algebra ((XY)^T = Y^T X^T) to op(A).op(B) with the right output shape; the product kernel is recognised from its affine '
+            'access maps (stride = column count, loop ranges = factor shapes, one contracted index, tile-coverage lemma for the blocked variant) and '
+            'the inner dimensions are asserted equal before the first access. The 64 Dot methods are matched against flags / vector promotion / '
+            'inner-dimension assert / outer-dimension result shape. Rounding is outside the property for integer entries.',
+    'design_ref': 'DESIGN.md 4.5, 3 (E-IDX contraction signatures, orientation algebra)',
+    'note': 'Trusted: transpose/to_vec transfer functions (their own index signatures are decided in C15); tile lemma: for B >= 1 the ranges '
+            '[oB, min(oB+B, L)) for o in 0..L/B+1 partition [0, L).',
+    'technique': 'flag specialisation of MIR + affine access maps -> contraction signature + symbolic matrix-expression algebra',
+}
+
 NOT_APPLICABLE = {
     'C09': 'accuracy of the Lanczos/asymptotic/Abramowitz-Stegun approximations over a continuum of arguments is a numerical '
            'quantity; no structural clause is a necessary condition without freezing coefficient tables (a brittle proxy); see DESIGN.md 4.9',
